@@ -10,7 +10,8 @@ MODULES = ["Shuttle.Props.C10"]
 RULE = ("seeded random straight-line kernels over several specs (zones that are views of other zones, special grids): valid and "
         "invalid static-trap lookups, sub_grid with ascending / repeated / unsorted / out-of-order index lists, slicing and "
         "integer indexing, views of views, shifts/scales (fallback), non-grid values, aliases, plus the same code inside "
-        "branches; each kernel compiled unfolded (@move) and with the spec folded in (@move(arch_spec=...)); the entries of "
+        "branches, and kernels in which a value reaches its use through an if/else or a loop with a named zone on one side and a "
+        "non-zone grid (from a subroutine or computed) on the other, run on every branch; each kernel compiled unfolded (@move) and with the spec folded in (@move(arch_spec=...)); the entries of "
         "ZoneAnalysis(...).run_analysis (and the hints HintZone leaves after the kernel had been hinted for a different spec first) are compared with the model's abstract values (unfolded) and, on both variants, checked "
         "against the per-SSA run-time values recorded by an instrumented spec interpreter. "
         "non-trivial = kernel with a view of a named zone; distinct = distinct (kernel, spec, variant).")
@@ -245,6 +246,97 @@ def index_sorted(prog, i):
     return True
 
 
+JOIN_SRC = '''
+@move
+def away():
+    return grid.shift(spec.get_static_trap(zone_id="A"), 1.0, 0.5)
+
+@move
+def nudge(z, d):
+    return grid.shift(z, d, 0.5)
+
+@move
+def pick(zs, i: int):
+    return zs[i]
+
+@move{opts}
+def kern(b: bool, n: int):
+    a = spec.get_static_trap(zone_id="A")
+    if b:
+        x = spec.get_static_trap(zone_id="B")
+    else:
+        x = nudge(a, 1.0)
+    y = x[0:1, :]
+    if b:
+        p = spec.get_static_trap(zone_id="A")
+    else:
+        p = pick((spec.get_static_trap(zone_id="B"), a), n)
+    q = grid.sub_grid(p, [0], [0])
+    w = spec.get_static_trap(zone_id="B")
+    if b:
+        w = grid.shift(w, 0.0, 1.0)
+    v = grid.sub_grid(w, [0], [0])
+    u = spec.get_static_trap(zone_id="A")
+    for k in range(n):
+        u = away()
+    t = u[:, 0:1]
+    return (x, y, w, v, u, t, p, q)
+'''
+
+
+def join_stream(ctx, sps, Rec):
+    """values that reach a use through an if/else or a loop: one alternative a named zone, the other a grid that is no zone
+    (delivered by a subroutine, or computed); every hint is checked against the values of every run"""
+    global SPEC_SLOT
+    from bloqade.geometry.dialects.grid import Grid
+    from bloqade.shuttle.analysis.zone import ZoneAnalysis
+    for si, spec in enumerate(sps):
+        if "A" not in spec.layout.static_traps or "B" not in spec.layout.static_traps:
+            continue
+        SPEC_SLOT = spec
+        zones_all = dict(spec.layout.static_traps)
+        zones_all.update(spec.layout.special_grid)
+        for variant, opts in (("unfolded", ""), ("folded", "(arch_spec=_C10.SPEC_SLOT)")):
+            src = HDR + JOIN_SRC.replace("{opts}", opts)
+            try:
+                mt = T.load_source(src, "c10j").kern
+            except Exception:  # noqa: BLE001
+                ctx.count("join_compile_fail")
+                continue
+            frame, _ = ZoneAnalysis(mt.dialects, arch_spec=spec).run_analysis(mt)
+            for args in ((True, 0), (False, 0), (True, 2), (False, 1)):
+                it = Rec(mt.dialects, arch_spec=spec)
+                it.recorded = {}
+                try:
+                    it.run(mt, args=args, kwargs={})
+                except Exception:  # noqa: BLE001
+                    pass
+                ctx.count("join_runs")
+                case = {"source": src[len(HDR):], "spec": f"s{si}", "variant": variant, "args": list(args)}
+                for ssa, z in frame.entries.items():
+                    if ssa not in it.recorded:
+                        continue
+                    v = it.recorded[ssa]
+                    if is_invalid(z):
+                        ctx.fail(case, f"value flagged {canon_zone(z)} was successfully computed at run time")
+                        continue
+                    zn = claims(z)
+                    if zn is None or not isinstance(v, Grid):
+                        continue
+                    ctx.count("join_hints_claiming_a_zone")
+                    zone = zones_all.get(zn)
+                    if zone is None:
+                        ctx.fail(case, f"hint names zone '{zn}' which the spec does not have")
+                    elif type(z).__name__ == "SpecZone":
+                        if not (v == zone):
+                            ctx.fail(case, f"hint says the value is zone '{zn}' itself, but on this run it is a different grid")
+                    else:
+                        zs = set((frac(x), frac(y)) for x, y in zone.positions)
+                        bad = [(x, y) for x, y in v.positions if (frac(x), frac(y)) not in zs]
+                        if bad:
+                            ctx.fail(case, f"hint {canon_zone(z)}: on this run site {bad[0]} of the value is no site of zone '{zn}'")
+
+
 def run(ctx):
     global SPEC_SLOT
     from bloqade.geometry.dialects.grid import Grid
@@ -344,6 +436,7 @@ def run(ctx):
                         got[int(name[1:])] = canon_zone(z)
                 lines.append(f"(C10 (analyse {sx(st_w)} {sx(ix_w)} {sx(wp)}))")
                 rows.append((case, prog, idx, got))
+    join_stream(ctx, sps, Rec)
     model = ctx.driver(lines)
     ctx.traces_validated = len(rows)
     for (case, prog, idx, got), m in zip(rows, model):
